@@ -433,7 +433,8 @@ def run(prop, tier, seed):
             for s_ in bscs:
                 meta[s_["id"]] = None
             bin_groups = len(bscs)
-        if stuck:
+        if stuck and not deadlocks:
+            # (a schedule that ended without a verdict does not take away the deadlocks established in other schedules)
             raise Inconclusive("watchdog fired without blocked-in-Lock evidence in %s" % stuck[:3])
         ndev = sum(1 for sid, evs in all_events.items() for e in evs if e["ev"] == "Sched" and e["deviations"])
         nblocked = sum(1 for sid, evs in all_events.items() for e in evs if e["ev"] == "Blocked")
